@@ -11,6 +11,7 @@ from gevent.hub import Waiter
 
 import scales.timer_queue as _tq
 import scales.sink as _sink
+import scales.dispatch as _dispatch
 import scales.varz as _varz
 import scales.loadbalancer.aperture as _aperture
 import scales.core as _core
@@ -111,6 +112,8 @@ class World(object):
     gq = _tq.TimerQueue(time_source=loop.now)
     _tq.GLOBAL_TIMER_QUEUE = gq
     _sink.GLOBAL_TIMER_QUEUE = gq
+    if hasattr(_dispatch, 'GLOBAL_TIMER_QUEUE'):
+      _dispatch.GLOBAL_TIMER_QUEUE = gq
     lrt = _tq.LowResolutionTime()
     _tq.LOW_RESOLUTION_TIME_SOURCE = lrt
     _varz.LOW_RESOLUTION_TIME_SOURCE = lrt
